@@ -169,4 +169,5 @@ PROPS = {
     "C02": {"run": c02, "level": "exploration"},
     "C03": {"run": simple, "level": "exploration"},
     "C04": {"run": c04, "level": "exploration"},
+    "C06": {"run": simple, "level": "exploration"},
 }
